@@ -14,6 +14,7 @@ struct Suf {
   int kind = 0;             // 0..3 item class | 4 float | ... (as written in the header)
   std::string name, table;  // table without trailing newline; may contain '\n'
   std::vector<std::pair<int, double>> vals;  // for int suffixes values are integral
+  int namelen_delta = 0, tablen_delta = 0;   // hostile: declared name/table length differs from the valid one (size + 1) by this much
 };
 
 struct Sol {
@@ -56,8 +57,8 @@ inline std::string encode_text(const Sol& s, bool crlf = false) {
     o += nl;
     for (auto& sf : s.sufs) {
       int tablines = sf.table.empty() ? 0 : 1 + (int)std::count(sf.table.begin(), sf.table.end(), '\n');
-      o += "suffix " + std::to_string(sf.kind) + " " + std::to_string(sf.vals.size()) + " " + std::to_string(sf.name.size() + 1) + " " +
-           std::to_string(sf.table.empty() ? 0 : sf.table.size() + 1) + " " + std::to_string(tablines) + nl;
+      o += "suffix " + std::to_string(sf.kind) + " " + std::to_string(sf.vals.size()) + " " + std::to_string((long)sf.name.size() + 1 + sf.namelen_delta) + " " +
+           std::to_string(sf.table.empty() ? 0 : (long)sf.table.size() + 1 + sf.tablen_delta) + " " + std::to_string(tablines) + nl;
       o += sf.name + nl;
       if (!sf.table.empty()) {
         std::string t = sf.table;
@@ -106,8 +107,8 @@ inline std::string encode_binary(const Sol& s) {
     if (s.have_code)
       for (auto& sf : s.sufs) {
         std::string r = "\nSuffix\n";
-        put<int>(r, sf.kind); put<int>(r, (int)sf.vals.size()); put<int>(r, (int)sf.name.size() + 1);
-        put<int>(r, sf.table.empty() ? 0 : (int)sf.table.size() + 1);
+        put<int>(r, sf.kind); put<int>(r, (int)sf.vals.size()); put<int>(r, (int)sf.name.size() + 1 + sf.namelen_delta);
+        put<int>(r, sf.table.empty() ? 0 : (int)sf.table.size() + 1 + sf.tablen_delta);
         r += sf.name; r += '\0';
         if (!sf.table.empty()) { r += sf.table; r += '\0'; }
         for (auto& v : sf.vals) { put<int>(r, v.first); if (sf.kind & 4) put<double>(r, v.second); else put<int>(r, (int)v.second); }
